@@ -251,7 +251,8 @@ func (p c04) session(c *fw.Ctx) []string {
 		case 36:
 			in = append(in, "rc("+small()+")", "shk("+fmt.Sprint(10+r.IntN(3))+", "+small()+")", "rc("+small()+")")
 		case 37:
-			in = append(in, "gi = outer(); gi("+small()+")")
+			k := small()
+			in = append(in, "gi = outer(); gi("+k+")", "g1 = "+fmt.Sprint(5+r.IntN(5)), "gi("+k+")", "gj = outer(); [gi("+k+"), gj("+k+")]")
 		case 38:
 			in = append(in, "outer2("+small()+")", "outer2("+small()+")")
 		case 39: // re-bind a function valued variable to something else, with = or :=, and back
